@@ -1,18 +1,34 @@
 // counterexample for c_coding::c04_hybrid_uint_roundtrip_log5_to_8 (property C04) found by CBMC; replay with
 //   /verif/bin/check --replay /verif/replays/C04/c04_hybrid_uint_roundtrip_log5_to_8.rs
-// repo: {"head": "74aab4444ecdedf8094c67b344fb9660c3cebedc", "dirty": true, "diff_sha256": "50853759784e8c61"}
+// repo: {"head": "736f7b025cf48e86662bf74aeb57bde61d8d7ccc", "dirty": true, "diff_sha256": "928c76f6179b9396"}
 // module: c_coding
 /// Test generated for harness `c_coding::c04_hybrid_uint_roundtrip_log5_to_8` 
 ///
-/// Check for `assertion`: "assertion failed: cbs.num_read_bits() == expect_bits as usize"
+/// Check for `assertion`: "attempt to subtract with overflow"
 
 #[test]
-fn kani_concrete_playback_c04_hybrid_uint_roundtrip_log5_to_8_8452447036012053118() {
+fn kani_concrete_playback_c04_hybrid_uint_roundtrip_log5_to_8_14571059427738597208() {
     let concrete_vals: Vec<Vec<u8>> = vec![
-        // 191
-        vec![191],
+        // 229
+        vec![229],
+        // 15
+        vec![15],
+        // 0
+        vec![0, 0, 0, 0],
+        // 18446742974197924016ul
+        vec![176, 0, 0, 0, 0, 255, 255, 255],
+        // 248
+        vec![248],
         // 63
         vec![63],
+        // 1
+        vec![1, 0, 0, 0],
+        // 18446742974198972416ul
+        vec![0, 0, 16, 0, 0, 255, 255, 255],
+        // 122
+        vec![122],
+        // 0
+        vec![0],
     ];
     kani::concrete_playback_run(concrete_vals, c04_hybrid_uint_roundtrip_log5_to_8);
 }
